@@ -144,7 +144,7 @@ def run_variant(v, props):
                                capture_output=True, text=True)
             if r.returncode != 0:
                 lines = [l for l in r.stdout.splitlines() if l.startswith("[R") or l.startswith("ANALYSIS")]
-                bad[p] = (r.returncode, [l[:200] for l in lines[:3]])
+                bad[p] = (r.returncode, [l[:400] for l in lines[:4]])
         return (kind, rel, q, bad)
     finally:
         shutil.rmtree(tmp, ignore_errors=True)
@@ -157,12 +157,16 @@ def main():
     ap.add_argument("--module", default="")
     ap.add_argument("--limit", type=int, default=0)
     ap.add_argument("--write", action="store_true")
+    ap.add_argument("--func", default="", help="only variants of functions whose qualified name contains this")
+    ap.add_argument("--props", default="", help="comma-separated property ids (default: all claimed)")
     a = ap.parse_args()
     kinds = ["rename", "flip"] if a.kind == "both" else [a.kind]
     vs = make_variants(kinds, a.module)
     if a.limit:
         vs = vs[: a.limit]
-    props = claimed()
+    props = a.props.split(",") if a.props else claimed()
+    if a.func:
+        vs = [v for v in vs if a.func in v[2]]
     print(f"{len(vs)} mechanical benign variants x {len(props)} checks")
     bad = []
     with cf.ThreadPoolExecutor(max_workers=a.jobs) as ex:
